@@ -120,13 +120,24 @@ def runScript (v : Variant) (cfg : Cfg) (c0 : α) (ops : List (Nat × Op α)) (e
 
 /-! ### executable spec, evaluated on the implementation's callback sequence -/
 
-/-- `seq` = contents the real callback saw; `c0` content at start; `final` the file state after the last
-    operation; `settled` = the script ended later than `R + D` after its last file operation -/
-def specVerdict (c0 : α) (seq : List α) (final : α) (settled inTime : Bool) : String :=
+/-- `seq` = contents the real callback saw; `c0` content at start; `written` the contents the script put in
+    place, in order; `settled` = the script ended later than `R + D` after its last file operation, or later than
+    `D` (plus slack) after a notification delivered after its last file operation
+    (theorems `eventual_reload`, `eventual_reload_after_notification`) -/
+def specVerdict (c0 : α) (seq : List α) (written : List α) (settled inTime : Bool) : String :=
+  let final := written.getLast?.getD c0
   if seq.head? = some c0 then "viol:unchanged-callback"
   else if !noAdjDup (c0 :: seq) then "viol:double-callback"
+  else if seq.any (fun c => !(c0 :: written).contains c) then "viol:foreign-content"
   else if settled && (c0 :: seq).getLast? != some final then "viol:final-content-not-reloaded"
   else if !inTime then "viol:late"
   else "ok"
+
+/-- Is the scripted watcher attached at time `t`?  Statically from the script: it is lost at a failure op and
+    back `slack` ms after the next reconcile tick (multiples of `R`).  `fails` = failure instants before `t`. -/
+def watcherUpAt (R slack : Nat) (fails : List Nat) (t : Nat) : Bool :=
+  match fails.getLast? with
+  | none => true
+  | some tx => R != 0 && decide ((tx / R + 1) * R + slack ≤ t)
 
 end Gate.C38
